@@ -94,20 +94,21 @@ class Report:
         for k in stale:
             self.say("  info: listed known finding no longer reproduced: %s %s" % (k["rule"], k["key"]))
 
+        noev = bool(os.environ.get("ECHSE_NO_EVIDENCE"))
         rc = 0
         replay_dir = os.path.join(VERIF, "evidence", "replay", self.pid)
-        if self.violations:
+        if self.violations and not noev:
             os.makedirs(replay_dir, exist_ok=True)
         for v in self.violations:
             path = os.path.join(replay_dir, safe_key(v["rule"] + "__" + v["key"]) + ".json")
-            with open(path, "w") as f:
+            with open(os.devnull if noev else path, "w") as f:
                 json.dump({"property": self.pid, "rule": v["rule"], "key": v["key"], "loc": v["loc"], "msg": v["msg"],
                            "detail": v["detail"],
                            "how_to_replay": "./check %s --tier %s  (re-analyses /repo; the same rule instance is reported while the construct is present)" % (self.pid, self.tier)},
                           f, indent=1, default=str)
             self.say("VIOLATION property=%s replay=%s" % (self.pid, path))
             rc = 1
-        if self.broken:
+        if self.broken and rc == 0:
             rc = 2
 
         obligations = sum(len(r["instances"]) for r in self.rules.values())
@@ -157,9 +158,10 @@ class Report:
             "violations": len(self.violations),
         }
         ev["coverage"].update(self.extra)
-        os.makedirs(os.path.join(VERIF, "evidence"), exist_ok=True)
-        with open(os.path.join(VERIF, "evidence", self.pid + ".json"), "w") as f:
-            json.dump(ev, f, indent=1, default=str)
+        if not noev:
+            os.makedirs(os.path.join(VERIF, "evidence"), exist_ok=True)
+            with open(os.path.join(VERIF, "evidence", self.pid + ".json"), "w") as f:
+                json.dump(ev, f, indent=1, default=str)
         self.say("%s tier=%s rules=%d instances=%d discharged=%d known-findings=%d violations=%d broken=%d wall=%.1fs" % (
             self.pid, self.tier, len(self.rules), obligations, discharged, len(self.known_hits), len(self.violations),
             len(self.broken), time.time() - self.t0))
